@@ -6,6 +6,25 @@ from pyvc.runner import Bounded
 from pyvc.symexec import RaiseSig, exc_class
 from pyvc.values import SExc, SInt, SList, SSeq, SStub
 
+from pyvc.replay import py_replay  # noqa: E402
+
+_B = """
+from passlib.utils.binary import h64, h64big
+def ref_enc(v, bits, big, cm):
+    pad = -bits % 6; n = (bits + pad) // 6
+    if big: v <<= pad; ds = [(v >> (6 * (n - 1 - k))) & 63 for k in range(n)]
+    else: ds = [(v >> (6 * k)) & 63 for k in range(n)]
+    return bytes(cm[d] for d in ds)
+"""
+
+
+def _int_replay(bits, big):
+    eng = "h64big" if big else "h64"
+    return py_replay(_B, f"r = {eng}.encode_int{bits}(V['value'])",
+                     f"(isinstance(exc, ValueError) if not (0 <= V['value'] < 2**{bits}) else (exc is None and r == ref_enc(V['value'], {bits}, {big}, {eng}.bytemap) and {eng}.decode_int{bits}(r) == V['value']))",
+                     {"value": 2**bits}, search=lambda seed: [{"value": v} for v in (0, 1, 63, 64, 4095, 4096, 2**bits - 1, 2**bits, 2**bits + 5, 2**(bits + 4) - 1, -1, seed.get("value") or 0)])
+
+
 LEVEL = "proof"
 B = "passlib/utils/binary.py"
 LB = "libpass/_utils/binary.py"
@@ -170,6 +189,7 @@ for big in (False, True):
             params={"self": eng, "value": Int()},
             raises_iff={"ValueError": f"value < 0 or value > {2**bits - 1}"},
             ensures=[(f"result == enc64 of the {bits}-bit digits in the engine's order", _enc_int_spec(bits, big))],
+            replay=_int_replay(bits, big),
             descr="all integers",
         ))
     for bits, fn, n in ((12, "decode_int12", 2), (24, "decode_int24", 4), (30, "decode_int30", 5), (64, "decode_int64", 11)):
